@@ -25,7 +25,7 @@ RULE = (
     "return code 0 iff a direct decoder run accepts and 2 iff it raises a ConformanceError, never any other code; the pictures "
     "handed to write() are the decoder's pictures in decode order with their video parameters and coding mode under file names "
     "pattern % 0, 1, ...; with code 2 stdout carries 'Conformance error at bit offset N' and stderr the error line; each path's "
-    "model is then run through the real command on real files (same code, numbered raw+json pairs, contents read back equal the decoder's output)"
+    "model is then run through the real command on real files under one of 6 output patterns (same code, numbered raw+json pairs named by the documented extension rule, contents read back equal the decoder's output)"
 )
 BOUNDS = {
     "quick": "8 fixtures; regions: each parse-info block (9 bytes after the prefix), 2 seeded 1-byte windows per picture/fragment unit, every second byte of the sequence header of hq_min, the 4 prefix bytes, truncation anywhere; declared sizes <= dec.RESOURCE_BOUNDS",
@@ -97,6 +97,30 @@ def _same(ctx, a, b, label):
         ctx.fail(label, [repr(a)[:80], repr(b)[:80]])
 
 
+def _error_offset(exc, st):
+    """Where a ConformanceError is located: the offset it names, else the decoder's position (bits)."""
+    from vc2_conformance.bitstream.io import to_bit_offset
+    from vc2_conformance.decoder.io import tell
+
+    off = exc.offending_offset()
+    return to_bit_offset(*tell(st)) if off is None else off
+
+
+# output file name patterns tried on the plain side (rotated per path); all have a printf field in the last component
+OUT_PATTERNS = ["out_%d.raw", "run.1/picture_%d", "pic_%d", "a.b/c.d_%d.raw", ".hidden_%d.raw", "x/.y_%d"]
+
+
+def _expected_pair(name):
+    """Documented naming: the extension of the given name (if any) is replaced by .raw / .json."""
+    import os
+
+    head, tail = os.path.split(name)
+    if "." in tail[1:]:
+        tail = tail[: tail.rindex(".")]
+    base = os.path.join(head, tail)
+    return base + ".raw", base + ".json"
+
+
 def _snapshot(x):
     if isinstance(x, dict):
         return {k: _snapshot(v) for k, v in x.items()}
@@ -127,8 +151,11 @@ def _judge(ctx, make_file, size):
             _same(ctx, vp, dvp, "written-video-parameters-differ")
             _same(ctx, pcm, dpcm, "written-picture-coding-mode-differs")
     if rc == 2:
-        if not re.search(r"Conformance error at bit offset \d+\n", out) or "non-conformant bitstream" not in err:
+        m = re.search(r"Conformance error at bit offset (\d+)\n", out)
+        if not m or "non-conformant bitstream" not in err:
             ctx.fail("code-2-without-located-explanation", [out[:200], err[:200]])
+        elif exc is not None and int(m.group(1)) != cv_of(_error_offset(exc, st)):
+            ctx.fail("explanation-located-at-wrong-offset", [int(m.group(1)), cv_of(_error_offset(exc, st)), type(exc).__name__])
     elif "No errors found in bitstream" not in out:
         ctx.fail("code-0-without-verdict-line", [out[:200]])
     return [rc, list(cls)[:2], len(rec)]
@@ -177,30 +204,39 @@ def _plain(task, inputs):
     b = _concrete(task, inputs)
     direct = []
     cls, st, exc = dec.run_decoder(io.BytesIO(b), on_picture=lambda p, vp, pcm: direct.append((_snapshot(p), _snapshot(vp), pcm)))
+    import hashlib
+
+    which = int(hashlib.sha1(b).hexdigest(), 16) % len(OUT_PATTERNS)
     with cmds.scratch_dir() as d:
         fn = os.path.join(d, "stream.vc2")
         with open(fn, "wb") as f:
             f.write(b)
-        pat = os.path.join(d, "out_%d.raw")
+        outdir = os.path.join(d, "o")
+        pat = os.path.join(outdir, OUT_PATTERNS[which])
+        os.makedirs(os.path.dirname(pat))
         rc, out, err = cmds.real_main("vc2_conformance.scripts.vc2_bitstream_validator", [fn, "-o", pat])
-        files = sorted(x for x in os.listdir(d) if x != "stream.vc2")
+        files = sorted(os.path.relpath(os.path.join(r, x), outdir) for r, _, fs in os.walk(outdir) for x in fs)
         if rc not in (0, 2):
             return b, rc, "exit-status-not-0-or-2", "exit %r decoder %r stderr %s" % (rc, cls, err[-300:])
         if (rc == 0) != (cls[0] == "ok"):
             return b, rc, "exit-status-disagrees-with-decoder", "exit %r decoder %r" % (rc, cls)
-        want = sorted(["out_%d.raw" % i for i in range(len(direct))] + ["out_%d.json" % i for i in range(len(direct))])
+        want = sorted(os.path.relpath(x, outdir) for i in range(len(direct)) for x in _expected_pair(pat % i))
         if files != want:
-            return b, rc, "picture-files-not-numbered-from-0-in-decode-order", "files %r, decoder produced %d pictures" % (files, len(direct))
+            return b, rc, "picture-files-not-numbered-from-0-in-decode-order", "pattern %r: files %r, expected %r" % (OUT_PATTERNS[which], files, want)
         for i, (dp, dvp, dpcm) in enumerate(direct):
-            p, vp, pcm = read(pat % i)
+            p, vp, pcm = read(_expected_pair(pat % i)[0])
             if p != dp:
                 return b, rc, "written-picture-differs-from-decoder-output", "picture %d: %r != %r" % (i, str(p)[:120], str(dp)[:120])
             if dict(vp) != dict(dvp):
                 return b, rc, "written-video-parameters-differ", "picture %d: %r != %r" % (i, vp, dvp)
             if pcm != dpcm:
                 return b, rc, "written-picture-coding-mode-differs", "picture %d: %r != %r" % (i, pcm, dpcm)
-        if rc == 2 and (not re.search(r"Conformance error at bit offset \d+\n", out) or "non-conformant bitstream" not in err):
-            return b, rc, "code-2-without-located-explanation", out[:200] + " / " + err[:200]
+        if rc == 2:
+            m = re.search(r"Conformance error at bit offset (\d+)\n", out)
+            if not m or "non-conformant bitstream" not in err:
+                return b, rc, "code-2-without-located-explanation", out[:200] + " / " + err[:200]
+            if int(m.group(1)) != _error_offset(exc, st):
+                return b, rc, "explanation-located-at-wrong-offset", "reported bit offset %s, the %s is at %s" % (m.group(1), type(exc).__name__, _error_offset(exc, st))
         if rc == 0 and "No errors found in bitstream" not in out:
             return b, rc, "code-0-without-verdict-line", out[:200]
     return b, rc, None, ""
